@@ -19,7 +19,9 @@ def run(c, replay):
     ctx = dict(exe=exe, mexe=mexe, sd=sd, proof_ok=True)
     progs, runs = C.campaign(c, ctx, r, 6 if c.tier == "quick" else 60, S.mask("ROLLBACK", "SILENT", "CKPT"), c.tier, variants=("pred",),
                              extra_cfgs=[(3, 1, 300), (4, 4, 300), (6, 7, 300)])
-    runs = runs + C.lp_campaign(c, ctx, r, 12 if c.tier == "quick" else 200, S.mask("ROLLBACK", "SILENT", "CKPT"))
+    lpruns = C.lp_campaign(c, ctx, r, 12 if c.tier == "quick" else 200, S.mask("ROLLBACK", "SILENT", "CKPT"))
+    c.cov.update(C.worker_report(c, lpruns))
+    runs = runs + lpruns
     rb = sil = deep = okr = 0
     for run_ in runs:
         res, pr = run_["res"], run_["prog"]
